@@ -98,12 +98,18 @@ func (c *c19Ctx) genScenario(seed uint64, progs []*c19Prog) *Scenario {
 		s.ProgName, s.Header, s.Body, s.RawSrc, s.Enc, s.DecoSeed = "empty", nil, nil, "", "ascii", 0
 		s.NoFinalNL = true
 	}
+	if s.RawSrc == "" && s.Enc != "ascii" && r.Chance(1, 10) {
+		s.Bulk = pick(r, []int{40, 150, 600})
+	}
+	if s.RawSrc == "" && s.Enc != "ascii" && r.Chance(1, 8) {
+		s.AsciiHead = pick(r, []int{300, 1024, 4096, 4200, 8192, 20000, 70000})
+	}
 	s.CRLF = r.Chance(1, 10) && s.RawSrc == ""
 	if r.Chance(1, 12) && s.RawSrc == "" {
 		s.NoFinalNL = true
 	}
-	shapes := []string{"src-dst", "src-dst-lst", "none", "src", "four", "d-src-dst", "d-only", "v", "help", "badflag"}
-	s.Shape = shapes[r.weighted([]int{66, 12, 2, 3, 3, 5, 1, 1, 1, 2})]
+	shapes := []string{"src-dst", "src-dst-lst", "none", "src", "four", "d-src-dst", "d-only", "v", "help", "badflag", "src-dst-dashlst", "src-dst-v"}
+	s.Shape = shapes[r.weighted([]int{64, 11, 2, 3, 3, 5, 1, 1, 1, 2, 2, 2})]
 	if s.Shape == "src-dst-lst" || s.Shape == "four" {
 		s.LstKind = pick(r, []string{"ok", "ok", "ok", "parent_missing", "same_as_dst", "existing"})
 	}
@@ -113,13 +119,13 @@ func (c *c19Ctx) genScenario(seed uint64, progs []*c19Prog) *Scenario {
 		s.Break = 1 + r.Intn(4)
 		s.BreakLine = r.Intn(len(s.Header) + len(s.Body))
 	}
-	dstKinds := []string{"absent", "empty", "shorter", "equal", "longer", "old_image", "ro_file", "ro_dir", "parent_missing", "parent_is_file", "is_dir", "symlink_file", "dangling_symlink", "dev_full", "relative", "dotdot", "longname", "emptyarg", "dev_null", "trailing_slash"}
-	s.DstKind = dstKinds[r.weighted([]int{35, 4, 8, 5, 10, 6, 3, 3, 3, 2, 3, 3, 2, 3, 4, 3, 1, 1, 2, 2})]
+	dstKinds := []string{"absent", "empty", "shorter", "equal", "longer", "old_image", "ro_file", "ro_dir", "parent_missing", "parent_is_file", "is_dir", "symlink_file", "dangling_symlink", "dev_full", "relative", "dotdot", "longname", "emptyarg", "dev_null", "trailing_slash", "dir_no_search"}
+	s.DstKind = dstKinds[r.weighted([]int{35, 4, 8, 5, 10, 6, 3, 3, 3, 2, 3, 3, 2, 3, 4, 3, 1, 1, 2, 2, 2})]
 	if s.SrcKind == "same_as_dst" {
 		s.DstKind = "absent"
 	}
 	s.DstPrefillSeed = r.U64()
-	if r.Chance(1, 5) || ((s.SrcKind == "mode000" || s.DstKind == "ro_file" || s.DstKind == "ro_dir") && r.Chance(3, 4)) {
+	if r.Chance(1, 5) || ((s.SrcKind == "mode000" || s.DstKind == "ro_file" || s.DstKind == "ro_dir" || s.DstKind == "dir_no_search") && r.Chance(3, 4)) {
 		s.Uid = nobody
 	}
 	if s.SrcKind == "stdin" {
@@ -227,6 +233,11 @@ func gridScenarios(c *c19Ctx, progs []*c19Prog, mode string, baseSeed uint64) []
 				for _, en := range es {
 					out = append(out, mk(&Fault{Kind: "strace", Target: tg, Syscall: sys, When: w, Errno: en}))
 					gridReachable[tg+":"+sys+":"+en+":"+out[len(out)-1].format()] = true
+					if tg == "dst" && (en == "EIO" || mode == "full") { // the same fault over a longer, stale destination
+						s2 := mk(&Fault{Kind: "strace", Target: tg, Syscall: sys, When: w, Errno: en})
+						s2.DstKind, s2.DstPrefillSeed = "longer", uint64(w)*131+7
+						out = append(out, s2)
+					}
 				}
 			}
 			// control: an ordinal the run never reaches must not fire
